@@ -945,6 +945,36 @@ example : acyclicB toyName [{ exReg (some 4) with kinds := ["Module", "KA"] }] =
     acyclicB toyName [exReg (some 1), { exReg (some 4) with name := "t", kinds := ["Module", "KA"] }] = false := by
   decide +kernel
 
+/-- the monitor the driver runs on every observed node judges exactly the specification: if `attachedB` says `true` then,
+on the observation, (1) a node which starts has every given attachment applied (`AttachedApplied` with the observed
+attributes), and (2) every module with a bad attachment is reported and the node does not start -/
+theorem attachedB_sound (nameOf : Val → Option Name) (mods : List (ModDecl DT Val)) (n : ObsNode)
+    (h : attachedB nameOf mods n = true) :
+    (n.starts = true → AttachedApplied nameOf mods n.attachedOf) ∧
+    (∀ m ∈ mods, BadAttachment nameOf mods m →
+      n.starts = false ∧ (m.name ∈ n.reported ∨ m.name ∈ n.initReported)) := by
+  simp only [attachedB, List.all_eq_true] at h
+  constructor
+  · intro hs m hm d hd t hg
+    have := h m hm d hd
+    rw [hg] at this
+    cases hok : targetOk mods d t with
+    | true => simp only [hok, ↓reduceIte, hs, Bool.not_true, Bool.false_or, beq_iff_eq] at this; exact ⟨rfl, this⟩
+    | false => simp [hok, hs] at this
+  · intro m hm ⟨d, t, hd, hg, hbad⟩
+    have := h m hm d hd
+    rw [hg] at this
+    simp only [hbad, Bool.false_eq_true, ↓reduceIte, Bool.and_eq_true, Bool.not_eq_true', Bool.or_eq_true,
+      List.contains_eq_mem, decide_eq_true_eq] at this
+    exact this
+
+/-- `attachedB_sound` is not vacuous: the observation of the started example node passes the monitor, the same node
+observed as started with a typo in `out` does not -/
+example : attachedB toyName (exNode (some 1)) ⟨["r", "t", "u"], ["r", "t", "u"], [], true, [], [("r", "out", some "t")]⟩ = true ∧
+    attachedB toyName (exNode (some 3)) ⟨["r", "t", "u"], ["r", "t", "u"], [], true, [], [("r", "out", none)]⟩ = false ∧
+    attachedB toyName (exNode (some 3)) ⟨["r", "t", "u"], ["r", "t", "u"], [], false, ["r"], []⟩ = true := by
+  decide +kernel
+
 /-- merging on a concrete example: three files, `b` defined in all of them, `c` only in the third -/
 example : mergeB (· == ·)
     [⟨"eq0", [("a", "0.a"), ("b", "0.b")]⟩, ⟨"eq1", [("b", "1.b")]⟩, ⟨"eq2", [("c", "2.c"), ("b", "2.b")]⟩]
